@@ -129,7 +129,8 @@ static Verdict check(const Fields &f) {
 }
 
 // ---- all 31 incomplete managers x all nine ...Mm entry points --------------------------------
-template <class A> static Verdict incomplete_one(unsigned present) {
+// state: 0 = operands freshly parsed, 1 = made owner first, 2 = partially normalised first (owner through normalisation)
+template <class A> static Verdict incomplete_one(unsigned present, int state = 0) {
   using Ch = typename A::Ch;
   LedgerMM L;
   UriMemoryManager m = L.mm;
@@ -144,6 +145,8 @@ template <class A> static Verdict incomplete_one(unsigned present) {
   const Ch *ep;
   VF_REQUIRE(A::ParseSingleUriEx(&a, t1.data(), t1.data() + t1.size(), &ep) == 0 && A::ParseSingleUriEx(&b, t2.data(), t2.data() + t2.size(), &ep) == 0, "setup parse failed");
   struct Cl { typename A::Uri *a, *b; ~Cl() { A::FreeUriMembers(a); A::FreeUriMembers(b); } } cl{&a, &b};
+  if (state == 1) VF_REQUIRE(A::MakeOwner(&a) == 0 && A::MakeOwner(&b) == 0, "setup make-owner failed");
+  if (state == 2) VF_REQUIRE(A::NormalizeSyntaxEx(&a, URI_NORMALIZE_SCHEME) == 0 && A::NormalizeSyntaxEx(&b, URI_NORMALIZE_PATH) == 0, "setup normalise failed");
   std::string fa = freeze<A>(a);
   int rc;
   memset(&d, 0, sizeof d);
@@ -182,17 +185,27 @@ static Verdict enumerate(int tier, int shard, int nshards, Fields *failing) {
   (void)tier;
   for (unsigned present = 0; present < 31; present++) {
     if ((int)(present % (unsigned)nshards) != shard) continue;
-    Verdict v = incomplete_one<Api<char>>(present);
-    if (v.kind == Verdict::PASS) v = incomplete_one<Api<wchar_t>>(present);
+    Verdict v = Verdict::pass();
+    for (int state = 0; state < 3 && v.kind == Verdict::PASS; state++) {
+      v = incomplete_one<Api<char>>(present, state);
+      if (v.kind == Verdict::PASS) v = incomplete_one<Api<wchar_t>>(present, state);
+    }
     stats().evaluations++;
-    stats().sub_evaluations += 18;
+    stats().sub_evaluations += 54;
     if (v.kind == Verdict::FAIL) { failing->seti("incomplete", present); return v; }
-    stats().nontrivial("incomplete" + std::to_string(present), "incomplete manager, present functions bitmask " + std::to_string(present) + " x 9 entry points x 2 character types");
+    stats().nontrivial("incomplete" + std::to_string(present), "incomplete manager, present functions bitmask " + std::to_string(present) + " x 9 entry points x 2 character types x 3 operand states");
   }
   return Verdict::pass();
 }
 static Verdict check_dispatch(const Fields &f) {
-  if (f.has("incomplete")) { Verdict v = incomplete_one<Api<char>>((unsigned)f.geti("incomplete")); return v.kind == Verdict::PASS ? incomplete_one<Api<wchar_t>>((unsigned)f.geti("incomplete")) : v; }
+  if (f.has("incomplete")) {
+    for (int state = 0; state < 3; state++) {
+      Verdict v = incomplete_one<Api<char>>((unsigned)f.geti("incomplete"), state);
+      if (v.kind == Verdict::PASS) v = incomplete_one<Api<wchar_t>>((unsigned)f.geti("incomplete"), state);
+      if (v.kind != Verdict::PASS) return v;
+    }
+    return Verdict::pass();
+  }
   return check(f);
 }
 
